@@ -113,9 +113,9 @@ FAULTS = {
     "examples-outside-outline": ["Examples: stray", "  Examples:"],
     "and-without-predecessor": ["And orphan", "  But orphan"],
     "ragged-table-row": ["| 1 | 2 | 3 | 4 | 5 |", "  | 1 | 2 | 3 | 4 | 5 |"],
-    "bad-tag-token": ["@ok bad-token", "  @ok bad"],
+    "bad-tag-token": ["@ok bad-token", "  @ok bad", "@ok {slow}", "  @smoke {0} %s %(x)s"],
     # inside a doc-string: a line indented less than the opening delimiter
-    "underindented-docstring-line": ["text at column 0", " one blank only"],
+    "underindented-docstring-line": ["text at column 0", " one blank only", '{"id": 1, "fmt": "%s {x}"}'],
 }
 
 
